@@ -19,16 +19,16 @@ def main(tier):
     ck.died_confirms = False
     ck.assumptions += ['map iteration order fixed to insertion order in this check (order independence of the parser is decided by C03)',
                        'exit status is a function of how the command body ends: RunE returning non-nil -> Execute exits 1; logger.Fatal -> exit 1; logger.Panic / runtime panic -> exit 2; normal return -> 0 (contracts of cobra and zerolog)',
-                       'fault classes ENUMERATED (missing include, unknown stored name, too many / too few end markers, unknown processor, unknown cmdline type, unsupported flag, odd replacement list, malformed entry via a failing rassemble stub, missing identifier, rule id / chain offset / rules file not found or ambiguous, unbalanced marker for format); the position of the faulty file in an --all run and --all vs single mode are enumerated per job, the output format is symbolic',
+                       'fault classes ENUMERATED (missing include (top level, in a block, of include-except), missing exclude file, flags line in an include file, unknown stored name (top level, nested block), unknown stored name, too many / too few end markers, unknown processor, unknown cmdline type, unsupported flag, odd replacement list, malformed entry via a failing rassemble stub, missing identifier, rule id / chain offset / rules file not found or ambiguous, unbalanced marker for format); the position of the faulty file in an --all run and --all vs single mode are enumerated per job, the output format is symbolic',
                        'reading chosen for --all: the run must not exit 0; files that completed before the fault are not rolled back']
     jobs = []
     for cmd in (0, 1):
-        for fault in range(0, 14):
+        for fault in range(0, 19):
             for allm, posn in ((0, 1), (1, 0), (1, 1), (1, 2)):
                 if fault == 11 and allm:
                     continue
                 jobs.append(('cmd.VerifC16Fault', dict(params={'fault': fault, 'cmd': cmd, 'all': allm, 'position': posn}, unwind=40, exclude=exclude, timeout_ms=120000, terminal_obligations=(), hooks={'fixed_map_order': True})))
     jobs.append(('cmd.VerifC16FormatFault', dict(unwind=40, exclude=exclude, timeout_ms=120000, terminal_obligations=(), hooks={'fixed_map_order': True})))
-    rs, viol = ck.run('faults', jobs, bounds={'fault_classes': 14, 'commands': ['update', 'compare', 'format'], 'all_position': 'first/middle/last, enumerated'})
+    rs, viol = ck.run('faults', jobs, bounds={'fault_classes': 19, 'commands': ['update', 'compare', 'format'], 'all_position': 'first/middle/last, enumerated'})
     ck.triage(viol)
     return ck.finish()
